@@ -113,3 +113,4 @@ package output
 //@   modifies *
 //@   ensures #C19.one-write-per-line calls(Fprintf) == 1
 //@   ensures #C19.reports-the-whole-line-consumed result == len(p)
+//@   ensures #C19.callers-bytes-untouched forall i int :: 0 <= i && i < len(p) ==> p[i] == old(p[i]) // io.Writer: Write must not modify the slice data, even temporarily
